@@ -467,7 +467,7 @@ rc::Gen<Case> gen_flood()
 void campaign(Ctx& ctx)
 {
 	bool const thorough = ctx.opt.tier == "thorough";
-	ctx.rc_campaign("socks sessions", gen_case(), thorough ? 40000 : 1200, 80, 1);
+	ctx.rc_campaign("socks sessions", gen_case(), thorough ? 40000 : 2500, 80, 1);
 	ctx.rc_campaign("socks floods", gen_flood(), thorough ? 600 : 12, 50, 2);
 }
 
